@@ -6,4 +6,6 @@ export GOFLAGS=-mod=mod GOPROXY=off GOSUMDB=off GOTOOLCHAIN=local
 cd "$(dirname "$0")/mc"
 mkdir -p ../.bin ../evidence ../replays
 CGO_ENABLED=0 go build -tags verif -o ../.bin/mc.setup . && rm -f ../.bin/mc.setup
+# the race-detector build used by C19's supplementary pass (needs cgo + gcc, both present offline)
+CGO_ENABLED=1 go build -race -tags verif -o ../.bin/mc_race.setup . && rm -f ../.bin/mc_race.setup || echo "race build unavailable: C19 skips its race pass"
 echo setup ok
